@@ -4,6 +4,7 @@ import Nri.Proofs.LibMem
 import Nri.Proofs.LibMemInv
 import Nri.Proofs.LibMemCommit
 import Nri.Proofs.LibMemReplay
+import Nri.Proofs.LibMemLate
 import Nri.Gen.LibmemFacts
 /-!
 C06 — memory allocator operations are transactional; stale offers are rejected.
@@ -271,6 +272,31 @@ example :
      | .ok o => (((s0.GetOffer r).1.Commit o).2, (s0.Allocate r).2)
      | .error _ => (.error .other, .error .internal))
       = (.ok ⟨1, [("b", 3)]⟩, .ok ⟨1, [("b", 3)]⟩) := by rfl
+
+/-! ### offers committed arbitrarily late -/
+
+/-- **Offers committed arbitrarily late.** Take an offer in any well-formed, placed state `s`, let
+ANY sequence of Allocate / GetOffer / Realloc / Release operations (successful or failing) follow,
+and commit the offer then.  Either its version is no longer the allocator's and the commit is
+refused without any change - this is the case as soon as one assignment has changed, because the
+version never decreases and stays the same only if the request list stays the same
+(`run_version`) - or nothing has changed since the offer was computed, and the commit returns the
+zone and the updates and leaves the assignments that a direct `Allocate` in `s` would have. -/
+theorem late_commit_refused_or_as_fresh (s : St) (hw : WF s) (hp : Placed s) (r : Req) (o : Offer)
+    (h : (s.GetOffer r).2 = .ok o) (ops : List Op) :
+    (o.version ≠ ((s.GetOffer r).1.run ops).version →
+        ((s.GetOffer r).1.run ops).Commit o = (((s.GetOffer r).1.run ops), .error .expiredOffer)) ∧
+    (o.version = ((s.GetOffer r).1.run ops).version →
+        ((s.GetOffer r).1.run ops).reqs = s.reqs ∧
+        (((s.GetOffer r).1.run ops).Commit o).2 = (s.Allocate r).2 ∧
+        (((s.GetOffer r).1.run ops).Commit o).1.reqs = (s.Allocate r).1.reqs) :=
+  late_commit s hw hp r o h ops
+
+/-- the version is a faithful change counter over every history: it never decreases, and two
+states of a history with the same version have the same assignments. -/
+theorem version_counts_changes (s : St) (hw : WF s) (ops : List Op) :
+    s.version ≤ (s.run ops).version ∧ ((s.run ops).version = s.version → (s.run ops).reqs = s.reqs) :=
+  (run_version ops s hw).2
 
 -- non-vacuity: a concrete 2-node allocator is well-formed and the theorems' hypotheses are met
 def exampleSt : St :=
